@@ -25,19 +25,28 @@ out = ["# Seeded breaking changes", "",
        "independent confirmation by `tools/seedconfirm.py`) and `result.<tier>.json` (which checks fired:",
        "`tools/seedrun.py`). The changes were produced by sub-agents that saw only the property text and",
        "a scratch worktree of /repo; every one compiles and passes the crate's whole test suite.", "",
-       "| seed | target | change | trigger | target check | with failing input | other checks that fired |",
-       "|---|---|---|---|---|---|---|"]
+       "`first run` = the own check as the machinery stood when the change was produced (result.initial.json;",
+       "rounds a/b predate that record); `final` = the own check at the end (result.final.json); `other checks`",
+       "comes from the last run over all twenty checks (rounds g–j were run against their own check only).", "",
+       "| seed | target | change | trigger | first run | target check | final | with failing input | other checks that fired |",
+       "|---|---|---|---|---|---|---|---|---|"]
 for sid, meta, res in rows:
     t = meta["property"]
     title = meta.get("title", "").replace("|", "/")
     trig = meta.get("trigger", "").replace("|", "/")
     if len(trig) > 160: trig = trig[:157] + "..."
     if res is None:
-        out.append(f"| {sid} | {t} | {title} | {trig} | not run | | |"); continue
+        out.append(f"| {sid} | {t} | {title} | {trig} | | not run | | | |"); continue
     det = "**caught**" if res["target_detected"] else "**MISSED**"
+    def own(path):
+        if not os.path.exists(path): return ""
+        r = json.load(open(path)); rr = r.get("results", r)
+        return "caught" if rr.get(t, {}).get("violation") else "missed"
+    first = own(os.path.join(V, "seeded", sid, "result.initial.json"))
+    final = own(os.path.join(V, "seeded", sid, "result.final.json"))
     wf = "yes" if t in res.get("with_failing_input", []) else ("no-failing-input-found" if res["target_detected"] else "")
     others = [p for p in res["detected_by"] if p != t]
-    out.append(f"| {sid} | {t} | {title} | {trig} | {det} | {wf} | {' '.join(others)} |")
+    out.append(f"| {sid} | {t} | {title} | {trig} | {first} | {det} | {final} | {wf} | {' '.join(others)} |")
 # behaviour-preserving refactors: no check should fire
 ref = []
 for d in sorted(glob.glob(os.path.join(V, "seeded", "R-C*-*"))):
